@@ -1549,9 +1549,11 @@ class Wtp:
 
                     if name in self.template_override_funcs and not nowiki:
                         # print("Name in template_overrides: {}".format(name))
+                        self.expand_stack.append("TEMPLATE_OVERRIDE")
                         new_args = tuple(
                             expand_recurse(x, parent, expand_all) for x in args
                         )
+                        self.expand_stack.pop()
                         parts.append(
                             self.template_override_funcs[name](
                                 new_args,
@@ -1569,9 +1571,12 @@ class Wtp:
                         # arguments, because those parser functions could
                         # refer to its parent frame and fail if expanded
                         # after eliminating the intermediate templates.
+                        # (The call counts towards the recursion depth.)
+                        self.expand_stack.append("UNEXPANDED_TEMPLATE")
                         new_args = tuple(
                             expand_recurse(x, parent, expand_all) for x in args
                         )
+                        self.expand_stack.pop()
                         parts.append(
                             self._unexpanded_template(new_args, nowiki)
                         )
